@@ -79,6 +79,7 @@ class Gen:
         self.n = 0
         self.pre = []  # statements that must precede (constant tables)
         self.funs = []  # (name, [formal types], return type) of callable compiled functions
+        self.products_in_loops = False
 
     # ------------------------------------------------------------ leaves
     def paths(self, want):
@@ -401,7 +402,13 @@ class Gen:
                 s, t, es = r.choice(cs)
                 xv = "x%d" % depth
                 if self.env[v]["t"][0] == "int":
-                    line = "%s %s= %s" % (v, r.choice(["+", "^", "|"]), xv)
+                    rhs = xv
+                    if self.products_in_loops and r.random() < 0.5:
+                        # the element takes part in a product / sum (elements of a bound table are constants)
+                        a, _ = self.int_leaf(2)
+                        b, _ = self.int_leaf(2)
+                        rhs = r.choice(["(%s * %s)" % (a, xv), "((%s * %s) + %s)" % (a, xv, b), "((%s * %s) + %s)" % (xv, a, b), "(%s + %s)" % (xv, a)])
+                    line = "%s %s= %s" % (v, r.choice(["+", "^", "|"]), rhs)
                 else:
                     line = "%s = %s %s %s" % (v, v, r.choice(["and", "or", "^"]), r.choice([xv, "(not %s)" % xv]))
                 if not in_branch:
@@ -482,6 +489,7 @@ def rand_value(rnd, t):
 def one_program(rnd, maxbits=14, name="prog", argnames="abc", argt=ARGT, nstmts=(2, 5), funs=(), params=0, simple_ret=False, info=None):
     g = Gen(rnd)
     g.funs = list(funs)
+    g.products_in_loops = bool(params)
     args = []
     tot = 0
     sig = []
